@@ -256,4 +256,108 @@ def strategy(tier):
     )
 
 
-PARTS = [Part("rerun", run, strategy, {"quick": 2000, "thorough": 50000}, rule=RULE)]
+# ----------------------------------------------------------------------------- rerun inside a loop
+
+
+def run_cycle(scn, stats):
+    """A counter loop fails in a later iteration; several tasks of the cycle are requested explicitly."""
+    from vf.lang import E
+
+    lng = scn["lang"]
+    klen, bound, fail_at, fail_task = scn["klen"], scn["bound"], scn["fail_at"], scn["fail_task"] % scn["klen"]
+    body = ["l%d" % i for i in range(klen)]
+    tasks = {"t0": {"action": "core.act", "next": [{"when": E(["true"], lng), "do": [body[0]], "publish": []}]}, "t9": {"action": "core.act", "next": []}}
+    for i, b in enumerate(body):
+        t = {"action": "core.act", "next": []}
+        if i < klen - 1:
+            t["next"].append({"when": E(["succeeded"], lng), "do": [body[i + 1]], "publish": []})
+        else:
+            t["next"].append({"when": E(["and", ["succeeded"], ["ctx_lt", "n", bound]], lng), "do": [body[0]], "publish": [["n", E(["ctx_plus", "n", 1], lng)]]})
+            t["next"].append({"when": E(["and", ["succeeded"], ["ctx_ge", "n", bound]], lng), "do": ["t9"], "publish": []})
+        tasks[b] = t
+    ir = {"vars": [["n", 0]], "tasks": tasks}
+    s2 = dict(scn, ir=ir, choices=[], outcomes={}, controls=[])
+    defn, drv = common.build(s2, stats)
+    info = {"definition": defn, "fail_task": body[fail_task], "fail_at": fail_at}
+    count = collections.Counter()
+    state = {"fail": True}
+
+    def outcome(a):
+        count[a[0]] += 1
+        if state["fail"] and a[0] == body[fail_task] and count[a[0]] == fail_at:
+            return "failed", {"tok": a[0], "code": 500}
+        return "succeeded", {"tok": a[0], "code": 200}
+
+    def drive():
+        n = 0
+        while n < 100:
+            n += 1
+            rec = drv.apply({"op": "poll"})
+            if not drv.inflight:
+                if not rec["offers"]:
+                    break
+                continue
+            a = drv.inflight[0]
+            st_, res = outcome(a)
+            drv.apply({"op": "done", "a": list(a), "status": st_, "result": res})
+
+    try:
+        drv.start()
+        drive()
+        if drv.status() != "failed":
+            return  # the failing visit was never reached (fail_at beyond the number of iterations)
+        executed_before = collections.Counter(t for t, r, i in drv.dispatched)
+        req = [[b, 0, False] for b in body if executed_before[b]]
+        if scn["only_failed"]:
+            req = [[body[fail_task], 0, False]]
+        state["fail"] = False
+        rec = drv.apply({"op": "rerun", "tasks": req})
+        if rec["rejected"] and len(req) > 1:
+            # the engine collapses requests that lie in each other's sequence, which in a cycle can drop all of
+            # them; the statement says when a request may be accepted, not that it must be: counted, not alarmed
+            stats.label("cycle-rerun-rejected")
+            stats.mark_nontrivial(scn)
+            return
+        if rec["rejected"]:
+            raise Violation("rerun-of-the-failed-execution-rejected", dict(info, requested=req, reject=rec.get("reject_msg"), history=common.history_summary(_R(drv))))
+        if drv.status() != "resuming":
+            raise Violation("status-not-resuming-after-rerun", dict(info, status=drv.status()))
+        probe = drv.next_tasks()
+        if not probe:
+            raise Violation("stuck-after-accepted-rerun", dict(info, requested=req, status=drv.status(), history=common.history_summary(_R(drv))))
+        drive()
+    except provider.EngineException as e:
+        raise Violation("engine-raised", dict(info, error=str(e), history=common.history_summary(_R(drv))))
+    except (provider.KnownTrigger, provider.Anomaly) as e:
+        raise Violation("anomaly", dict(info, error=repr(e)))
+    if drv.status() != "succeeded":
+        raise Violation("loop-did-not-converge-after-rerun", dict(info, status=drv.status(), errors=drv.c.errors, history=common.history_summary(_R(drv))))
+    total = collections.Counter(t for t, r, i in drv.dispatched)
+    if total["t9"] != 1:
+        raise Violation("exit-task-not-executed-once", dict(info, executed=dict(total), history=common.history_summary(_R(drv))))
+    stats.label("cycle-rerun", "requests:%d" % len(req))
+    stats.mark_nontrivial(scn)
+    stats.sample({"definition": defn["tasks"], "requested": req, "history": common.history_summary(_R(drv))[:40]})
+
+
+class _R(object):
+    def __init__(self, d):
+        self.d = d
+
+
+def strat_cycle(tier):
+    return st.fixed_dictionaries({
+        "lang": st.sampled_from(["yaql", "jinja"]),
+        "klen": st.integers(1, 3),
+        "bound": st.integers(1, 3),
+        "fail_at": st.integers(1, 4),
+        "fail_task": st.integers(0, 2),
+        "only_failed": st.booleans(),
+        "style": st.integers(0, 3),
+    })
+
+
+PARTS = [
+    Part("rerun", run, strategy, {"quick": 1400, "thorough": 50000}, rule=RULE),
+    Part("cycle", run_cycle, strat_cycle, {"quick": 400, "thorough": 5000}, rule="a counter loop that fails in some iteration; explicit rerun of several tasks of the cycle; must be accepted, resume, converge"),
+]
